@@ -26,7 +26,7 @@ CHECKS = {
    text="Generated programs with unequal depths run under generated schedules that the harness controls (release permutations of blocked branch threads; systematically enumerated and randomised wake-up orders of pending futures). The barrier invariant - nothing of step k+1 exists while a branch is still inside step k, the macro has not returned - is evaluated while the controller knows exactly who is blocked, so it cannot fire on a correct barrier whatever the timing. Interleavings inside the macro's own glue code are not controlled."),
  "C07": dict(level="exploration", engine="R", design="6/C07",
    technique="metamorphic property-based testing: the same generated program rendered under the three macro names of its class, results / callback sequences / concurrency signatures compared with each other (no model)",
-   text="Each generated program is compiled under plain, spawn and alias macro names and run under identical enumerated failure plans; the oracle is agreement among the three (results; per-branch callback sequences; thread-name signature; first-poll arrival count distinguishing spawned from inline futures), plus type ascription of the expected result type."),
+   text="Each generated program is compiled under plain, spawn and alias macro names and run under identical enumerated failure plans; the oracle is agreement among the three (results; per-branch callback sequences; thread-name signature; first-poll arrival count distinguishing spawned from inline futures), plus type ascription of the expected result type; a child-process run in which every callback uses 256 KiB of stack must complete under all three names or under none. Stage 2 (typed chains): values that are Send but not Sync under the eight spawning macros against a reference that requires Send + 'static only."),
  "C08": dict(level="exploration", engine="R", design="6/C08",
    technique="property-based testing over harness-owned thread schedules: rendezvous at blocking gates, thread identity and name recorded by every callback",
    text="All gated callbacks of a multi-branch step must arrive while every gate is held closed (a branch waiting for a sibling could not), on distinct non-caller threads with the documented names; single-active steps run on the calling thread; the caller is observed not to continue before the last release. The only wall-clock element is the rendezvous deadline (10 s, confirmed once with 20 s) on the failing path."),
